@@ -25,6 +25,7 @@ type Engine struct {
 	lemmas  []*Lemma
 	typeSpecs map[string]*TypeSpec // "<pkgname>.<Type>"
 	trusted map[string]bool      // assumptions used (reported in evidence)
+	ghostTypes map[string]types.Type
 	loadErrs []string
 }
 
@@ -82,7 +83,7 @@ func fatal(format string, a ...any) {
 
 func load(repo string, overlayPath string, patterns []string) *Engine {
 	e := &Engine{repo: repo, pkgs: map[string]*packages.Package{}, funcs: map[string]*FuncInfo{},
-		byObj: map[*types.Func]*FuncInfo{}, trusted: map[string]bool{}, typeSpecs: map[string]*TypeSpec{}}
+		byObj: map[*types.Func]*FuncInfo{}, trusted: map[string]bool{}, typeSpecs: map[string]*TypeSpec{}, ghostTypes: map[string]types.Type{}}
 	e.fset = token.NewFileSet()
 	cfg := &packages.Config{
 		Mode: packages.NeedName | packages.NeedFiles | packages.NeedSyntax | packages.NeedTypes |
